@@ -147,6 +147,36 @@ def premises(ctx, config, w):
     return n
 
 
+def natural_unit_exact(ctx, config, w, o, X, Y, Rr, amt, where):
+    """Decimal back-end: the combined scale is a rounded decimal (18 fractional
+    digits).  If the rounded value coincides with the scale of a result unit
+    while the exact product / quotient does not, the natural-unit branch stores
+    a (x) b with a unit of the wrong scale.  One obligation per unit pair."""
+    from fractions import Fraction
+    from .magn import round18
+
+    def rows(key):
+        if key == amt:
+            return [("One", Fraction(1))]
+        q = w.by_path.get(key)
+        return [(v, q.tables["scale"][v][1]) for v in q.variants_const]
+    rscales = {s: v for v, s in rows(Rr)}
+    n = 0
+    for (u, sa) in rows(X):
+        for (v, sb) in rows(Y):
+            sigma = sa * sb if o == "*" else sa / sb
+            sd = round18(sigma)
+            n += 1
+            if sd in rscales:
+                rel = abs(sd - sigma) / sigma
+                ctx.ob("natural-unit-exact", "%s/%s %s %s/%s,%s" % (config, X, o, Y, u, v), rel <= Fraction(1, 10 ** 18),
+                       "the decimal scale combination %s %s %s rounds to %s = scale of %s::%s although the exact value is %.20g (relative error %.3g): "
+                       "the natural-unit branch then stores the bare %s of the amounts under a unit of the wrong scale"
+                       % (float(sa), o, float(sb), float(sd), Rr, rscales[sd], float(sigma), float(rel), "product" if o == "*" else "quotient"),
+                       where, nontrivial=False)
+    return n
+
+
 def run_config(ctx, config, counts):
     w = ws.load(config)
     U = w.U
@@ -176,6 +206,8 @@ def run_config(ctx, config, counts):
                 (_o, _s, _r, out, imp) = found[0]
                 ctx.ob("derived-output", inst, out == Rr, "Output is %s, declared result type %s" % (out, Rr), imp["span"])
                 by_value_form(ctx, config, w, crate, o, X, Y, Rr, imp, amt)
+                if config.startswith("dec"):
+                    counts["natural"] = counts.get("natural", 0) + natural_unit_exact(ctx, config, w, o, X, Y, Rr, amt, imp["span"])
                 counts["byval"].add((config, X, o, Y))
                 counts["ref"] += ref_forms(ctx, config, w, crate, o, X, Y, Rr, imp)
 
@@ -188,6 +220,7 @@ def run(ctx):
     ctx.floor("f64-all catalogue by-value derived operators", cat("f64-all"), 34)
     ctx.floor("dec-all catalogue by-value derived operators", cat("dec-all"), 34)
     ctx.floor("f64-all astronomical by-value derived operators", len([x for x in counts["byval"] if x[0] == "f64-all" and x[1].startswith("astronomical")]), 4)
+    ctx.floor("decimal unit pairs examined for natural-unit exactness", counts.get("natural", 0), 2000)
     ctx.floor("reference forms", counts["ref"], 3 * (34 + 4 + 8) + 3 * (34 + 8))
     ctx.rule_text = "one value-flow obligation per by-value derived operator impl and configuration (2 guard cases), three who-calls obligations for its reference forms, the generic _fit form"
     ctx.trusted = ["rustc THIR construction and trait resolution", "IEEE-754 / fpdec arithmetic per node",
